@@ -5,6 +5,8 @@ import (
 	"go/types"
 
 	"cvsslint/internal/facts"
+
+	"golang.org/x/tools/go/types/typeutil"
 )
 
 // ctorLiteral returns the composite literal a constructor returns the address
@@ -77,4 +79,18 @@ func (e *Env) ctorInits(ctor *types.Func, l *facts.Level, rule string) map[*type
 		}
 	}
 	return out
+}
+
+func astCompositeLit(x ast.Expr) (*ast.CompositeLit, bool) {
+	cl, ok := ast.Unparen(x).(*ast.CompositeLit)
+	return cl, ok
+}
+
+func calleeOf(info *types.Info, x ast.Expr) *types.Func {
+	call, ok := ast.Unparen(x).(*ast.CallExpr)
+	if !ok {
+		return nil
+	}
+	fn, _ := typeutil.Callee(info, call).(*types.Func)
+	return fn
 }
